@@ -133,7 +133,11 @@ def build_case(coords, seed):
     spec = dict(check="C13", seed=seed, coords=["cell"], solver=solver, datafit=coords["datafit"],
                 penalty=coords["penalty"], storage=coords["storage"], fit_intercept=coords["fit_intercept"],
                 strategy=coords["strategy"], n=14, p=6, xkind="gauss", alpha_frac=0.3, positive=False,
-                knobs=dict(tol=1e-6), group_style="contig", n_tasks=2)
+                knobs=dict(tol=1e-6), group_style="contig", n_tasks=2,
+                # "one small, well-conditioned problem per cell": an ordinary offset (a target dominated by its mean puts the
+                # square-root datafit with an intercept into its documented small-residual refusal) and labels that no
+                # hyperplane separates (otherwise compositions whose penalty does not bound the coefficients have no minimiser)
+                offset_scale=1.0, mirror_pairs=True)
     case = K.Case(spec)
     # Case collapses fit_intercept for solvers it believes have none: apply the cell's value verbatim
     case.fit_intercept = bool(coords["fit_intercept"]) and solver in (
